@@ -176,6 +176,14 @@ IReadFrom(lines, i, drop, st) ==
                       ELSE st.rdb[t]]
         IN IReadFrom(lines, i + 1, drop, [db |-> d1, rdb |-> r1])
 IRead(lines, drop) == IReadFrom(lines, 1, drop, IEmpty)    \* self.db, self.rdb = ... (replaces)
+\* the same result without recursion, for inputs naming every package on one line only (the domain);
+\* used by trace validation (long inputs), equality with the loop is asserted in every Read step
+IReadClosed(lines, drop) ==
+   LET idx == 1..Len(lines)
+       pk  == UNION {lines[i].pkgs : i \in idx}
+       tg  == UNION {lines[i].tags \ drop : i \in idx}
+   IN [db  |-> [k \in pk |-> lines[CHOOSE i \in idx : k \in lines[i].pkgs].tags \ drop],
+       rdb |-> [t \in tg |-> UNION {lines[i].pkgs : i \in {j \in idx : t \in lines[j].tags}}]]
 
 \* a read() that raises after k complete lines (the input raises, or tag_filter raises while line k+1
 \* is filtered): the tuple assignment is never reached and the object is unchanged.
@@ -188,7 +196,7 @@ IReadFails(st, lines, drop, k, nonatomic) ==
 IQReadFails(st, new, stage, dbfirst) ==
    IF dbfirst /\ stage = 1 THEN [db |-> new.db, rdb |-> st.rdb] ELSE st
 \* what a failed read may leave behind: the old collection or a consistent prefix collection
-IReadFailsAllowed(st, lines, drop, k) == {st} \cup {IRead(SubSeq(lines, 1, j), drop) : j \in 0..k}
+IReadFailsAllowed(st, lines, drop, k) == {st} \cup {IReadClosed(SubSeq(lines, 1, j), drop) : j \in 0..k}
 AReadFailsAllowed(a, lines, drop, k)  == {a} \cup {ARead(SubSeq(lines, 1, j), drop) : j \in 0..k}
 
 \* DB.insert(pkg, tags); dev = TRUE is what the code does today for a new tag: set((pkg))
@@ -216,6 +224,11 @@ IFacetFrom(st, order, i, dev, acc) ==
    ELSE IFacetFrom(st, order, i + 1, dev,
                    IInsert(acc, order[i], {FacetOf(t) : t \in st.db[order[i]]}, dev))
 IFacet(st, order, dev) == IFacetFrom(st, order, 1, dev, IEmpty)
+\* without the deviation the order does not matter; the same result without recursion (trace validation)
+IFacetClosed(st) ==
+   LET ft(p) == {FacetOf(t) : t \in st.db[p]}
+       fs    == UNION {ft(p) : p \in DOMAIN st.db}
+   IN [db |-> [p \in DOMAIN st.db |-> ft(p)], rdb |-> [f \in fs |-> {p \in DOMAIN st.db : f \in ft(p)}]]
 \* with the deviation the result depends on the dictionary order only through "which package
 \* brought facet f first"; o is explained iff for every facet some first package explains it
 IFacetDevExplains(st, o) ==
@@ -330,6 +343,7 @@ AliasTarget == IF ab.set /\ ~ab.cur THEN [db |-> ab.db, rdb |-> ab.rdb] ELSE [db
 Read(lines, drop) == /\ SetAbs(ARead(lines, drop))
                      /\ Edge("read", <<>>, drop, lines)
                      /\ LET st2 == IRead(lines, drop) IN SetImpl(st2) /\ KeepSrc(src, NoAlias(st2), st2)
+                     /\ Assert(IRead(lines, drop) = IReadClosed(lines, drop), "IReadClosed differs from the transcribed loop")
                      /\ (SameObject("read") \/ (drop = {} /\ SameObject("qread")))
 Insert(p, S)      == /\ p \notin P
                      /\ SetAbs(AInsert(Abs, p, S))
@@ -463,7 +477,7 @@ AliasOK      == /\ \A k \in DOMAIN db  : al.db[k]  # NoCell => (src.live /\ Cell
 FacetFormsAgree == IFacetDomain(Impl) =>
                       /\ \A order \in SetToSeqs(DOMAIN db) :
                             /\ IFacetDevExplains(Impl, IFacet(Impl, order, TRUE))
-                            /\ IFacet(Impl, order, FALSE) = IFacet(Impl, SetToSeq(DOMAIN db), FALSE)
+                            /\ IFacet(Impl, order, FALSE) = IFacetClosed(Impl)
 
 \* the reference answers, printed once per distinct state for the harness (an invariant that is TRUE)
 QN == SetToSeq(AllNames)
